@@ -107,12 +107,21 @@ pub fn dispatch(name: &str, args: &[&str]) -> Option<String> {
                 }
             }
             let mut text = unhex_str(args[0]).replace("@FIX@", &fix);
-            if text.contains("@UP@") {
-                // a minimal origin for proxy routes: answers every request with 200 "UPSTREAM" and closes
+            // minimal origins for proxy routes and WebSocket targets: @UP@ answers every request with 200 "UPSTREAM", @UPk@
+            // (k = 0..15) with 200 "UPk", and closes
+            let mut tokens: Vec<(String, String)> = vec![("@UP@".to_string(), "UPSTREAM".to_string())];
+            for k in 0..16 {
+                tokens.push((format!("@UP{}@", k), format!("UP{}", k)));
+            }
+            for (tok, ident) in tokens {
+                if !text.contains(&tok) {
+                    continue;
+                }
                 let l = std::net::TcpListener::bind("127.0.0.1:0").unwrap();
-                text = text.replace("@UP@", &l.local_addr().unwrap().to_string());
+                text = text.replace(&tok, &l.local_addr().unwrap().to_string());
                 std::thread::spawn(move || {
                     for s in l.incoming().flatten() {
+                        let ident = ident.clone();
                         std::thread::spawn(move || {
                             let mut s = s;
                             let _ = s.set_read_timeout(Some(Duration::from_millis(2000)));
@@ -124,7 +133,7 @@ pub fn dispatch(name: &str, args: &[&str]) -> Option<String> {
                                     Ok(n) => buf.extend_from_slice(&tmp[..n]),
                                 }
                             }
-                            let _ = s.write_all(b"HTTP/1.1 200 OK\r\nContent-Length: 8\r\n\r\nUPSTREAM");
+                            let _ = s.write_all(format!("HTTP/1.1 200 OK\r\nContent-Length: {}\r\n\r\n{}", ident.len(), ident).as_bytes());
                         });
                     }
                 });
